@@ -14,6 +14,7 @@ if [ ! -f /tmp/seed-baseline-lib.txt ]; then
 fi
 place_demo() {
   if [ "$KIND" = tests ]; then cp $SEED/demo.rs tests/$NAME.rs
+  elif [ "$KIND" = append ]; then cat $SEED/demo.rs >> ${LIBFILE}
   else python3 - "$SEED/demo.rs" "${LIBFILE:-src/metastore/gravitino.rs}" <<'PY'
 import sys,re
 p=sys.argv[2]
